@@ -203,14 +203,19 @@ RECURSIVE SpaceInSeqFrom(_, _, _)
 SpaceInSeqFrom(s, p, i) == IF i > Len(s) THEN FALSE ELSE ((p[i] # "T" /\ s[i] = SP) \/ SpaceInSeqFrom(s, p, i + 1))
 SpaceInsideSeq(s) == SpaceInSeqFrom(s, Pre(s), 1)
 
+\* likewise a '-' inside a sequence (e.g. the URL of an OSC 8 hyperlink) is a split point for the hyphen splitter,
+\* which then cuts the sequence in two: the halves are measured separately.  Reported separately (K3).
+HyphenInsideSeq(s) == LET p == Pre(s) IN \E i \in 1..Len(s) : p[i] # "T" /\ s[i] = HY
+SeqClass(P, o) == IF SpaceInsideSeq(P) THEN "space" ELSE IF o.splitter = "hyphen" /\ HyphenInsideSeq(P) THEN "hyphen" ELSE "plain"
+
 C05Applies(o) == o.splitter \in {"none", "hyphen"} /\ (o.alg = "ff" \/ o.pen = DefaultPen)
 C05Para(e, P, first, n) ==
   LET ind == IndentOfK(e.o, first) IN
   (DW(P) + DW(ind) <= e.o.width) => (n = 1 /\ e.lines[first].s = ind \o TrimEndSpaces(P))
-C05i(e, strange) ==
+C05i(e, cls) ==
   LET prs == ParaRanges(e) starts == PrefixSumsAcc(e.pl, 1, <<0>>) IN
   \A j \in 1..Len(prs) : LET P == ParaText(e, prs, j) IN
-     (SpaceInsideSeq(P) = strange) => C05Para(e, P, starts[j] + 1, e.pl[j])
+     (SeqClass(P, e.o) = cls) => C05Para(e, P, starts[j] + 1, e.pl[j])
 
 (* ---------- the event ---------- *)
 WrapOppss(e) == [j \in 1..Len(e.paras) |-> ToSet(e.paras[j].opps)]
@@ -242,8 +247,9 @@ Judge_wrap(e) ==
             THEN << Chk("C03", "VERDICT", "optimal-fit lines are not a minimum-cost arrangement of the paragraph's fragments", C03text(e)) >>
             ELSE <<>>) \o
   On("C05", IF usable /\ C05Applies(e.o)
-            THEN << Chk("C05", "VERDICT", "a paragraph that fits was not returned as one unchanged line", C05i(e, FALSE)),
-                    Chk("C05", "VERDICT", "a paragraph that fits was not returned as one unchanged line (escape sequence with an embedded space)", C05i(e, TRUE)) >>
+            THEN << Chk("C05", "VERDICT", "a paragraph that fits was not returned as one unchanged line", C05i(e, "plain")),
+                    Chk("C05", "VERDICT", "a paragraph that fits was not returned as one unchanged line (escape sequence with an embedded space)", C05i(e, "space")),
+                    Chk("C05", "VERDICT", "a paragraph that fits was not returned as one unchanged line (escape sequence containing a hyphen, hyphen splitter)", C05i(e, "hyphen")) >>
             ELSE <<>>) \o
   (IF e.o.alg = "ff"
    THEN << Chk(e.tag, "DRIFT", "wrap (first-fit) differs from the operational model", LineStringsOf(e) = LineStrings(WrapFF(e.text, e.o, WrapOppss(e)))) >>
